@@ -383,21 +383,21 @@ pub fn check(ctx: &Ctx) -> Check {
         Box::new(RandomPart {
             name: "npy-faults",
             rule: "valid npy files from sfs's writer and from the numpy-layout writer (all 10 dtypes, both byte orders, versions 1/2/3, 1..5 axes, >=1 element): EVERY truncation offset 0..len-1, every extension by 1..16 bytes (zeros / random / copy of the last value), and value counts off by whole values are fed to Array::read_npy, which must return Err (no Ok, no panic); the undamaged file must be accepted; non-trivial = the sweep contains cuts at a value boundary, in the padding or in the header-length field (always true); distinct by file",
-            cases: ctx.tier.pick(1000, 15_000),
+            cases: ctx.tier.pick(1000, 50_000),
             strategy: Box::new(|| npy_strategy().boxed()),
             eval: Box::new(eval_npy),
         }),
         Box::new(RandomPart {
             name: "text-faults",
             rule: "text files with 1..3 value tokens removed, or inserted anywhere separated by a space, a tab or a line feed, or appended after the final newline, or with the declared shape edited so that its product changes (length +-1/2, axis added, axis dropped); edits that keep the product are not generated; read::Builder (auto-detect) must return Err, the undamaged control must be accepted",
-            cases: ctx.tier.pick(6000, 80_000),
+            cases: ctx.tier.pick(6000, 300_000),
             strategy: Box::new(|| text_strategy().boxed()),
             eval: Box::new(eval_text),
         }),
         Box::new(RandomPart {
             name: "cli-faults",
             rule: "a sample of the damaged npy/text files through `sfs view`, `fold`, `stat -s sum` (+ `view -O npy`, `stat -H`), by path and on stdin: exit status non-zero, diagnostic on stderr, stdout without #SHAPE, npy magic or a numeric row",
-            cases: ctx.tier.pick(500, 5000),
+            cases: ctx.tier.pick(500, 15_000),
             strategy: Box::new(|| cli_strategy().boxed()),
             eval: Box::new(eval_cli),
         }),
